@@ -78,6 +78,13 @@ static int build_set(uint64_t seed, vec *S, int *res_out, char *desc, size_t dle
             case 1: { /* complete sub-tree of depth 1..maxd (pentagon-rooted half of the time for kind 1) */
                 int d = 1 + (int)vf_below(&r, (uint64_t)maxd);
                 H3Index p = kind ? vf_make_cell(res - d, REF_PENT_BC[vf_below(&r, 12)], (int[15]){0}) : vf_rand_cell(&r, res - d);
+                if (kind && res - d >= 1 && vf_below(&r, 2)) {
+                    /* a hexagon on a pentagon base cell that left the pentagon's centre chain early and has only zero digits
+                     * since: the cell on which "is the start of the iteration a pentagon?" short-cuts go wrong */
+                    int dg[15] = {0};
+                    dg[vf_below(&r, (uint64_t)(res - d > 3 ? 3 : res - d))] = 2 + (int)vf_below(&r, 5);
+                    p = vf_make_cell(res - d, REF_PENT_BC[vf_below(&r, 12)], dg);
+                }
                 add_children(S, p, res);
                 o += snprintf(desc + o, dlen - (size_t)o, " subtree(%016" PRIx64 ")", p);
                 break;
